@@ -290,7 +290,7 @@ def run(R):
                 R.proof_problems.append("corpus history %s: %s" % (os.path.basename(f), l[:300]))
     R.coverage.setdefault("distribution", {})["corpus_histories"] = ncorp
     runs = [(120, R.seed, False, "")] if R.quick else [(0, R.seed, True, "-all"), (1500, R.seed + 1, False, "-rand")]
-    run_proto(R, exe, runner, 60 if R.quick else 3000, R.seed)
+    run_proto(R, exe, runner, 60 if R.quick else 1500, R.seed)
     for n, seed, exh, tag in runs:
         trace = run_harness(R, exe, n, seed, exh, tag)
         if trace is None:
